@@ -145,6 +145,16 @@ chk("C20", "schedx", "model_checking",
     "(validated by one free-running real-process run per configuration); Cell hashing pinned to identifiers for "
     "reproducibility.", "DESIGN.md §5/C20")
 
+chk("C10", "latx+seqx", "exploration",
+    "exhaustive enumeration of static cell configurations (grids x neighbour layers x occupant caps x unit kinds x "
+    "placements on cell-critical positions) and of every sequence of <= 3 changes of the active unit on the real "
+    "cells / occupancy / cell taggers, and of generated factor files (all index orders) on the real FactorTypeMaps "
+    "and FactorTypeMapInStateTagger; oracle: exact multiset partition / index sets computed from the file text",
+    "The partition oracle is identifier-level and exact; the occupancy is driven through its public update() with "
+    "real extracted active states, so incrementally updated (non-initial) occupancy states are covered.",
+    "Placements subsampled deterministically in the quick tier (<= 150 per setting); estimators stubbed.",
+    "DESIGN.md §5/C10")
+
 ENGINES = [
     {"name": "schedx", "path": "jfv/schedx.py", "serves_properties": ["C20"],
      "kind_free_text": "controlled cooperative scheduler over fake multiprocessing primitives; deviation-bounded "
